@@ -1,4 +1,5 @@
 import DustVerif.Proofs.RtpsFrag
+import DustVerif.Proofs.RtpsAck
 /-! Property C05: fragmented samples are reassembled byte-identically for any size.
     Pure part: `as_data_frag_submessage` (cache_change.rs:119), the writer's fragment count
     (`len.div_ceil(f)`), the reader's `total_fragments_expected` / `reconstruct_data_from_frag`
@@ -217,5 +218,209 @@ theorem C05_nackfrag_panic_asis_counterexample :
     let p : WProxy := { WProxy.new with mustAck := true, lastAvail := 1, fragBuf := [fr] }
     (match p.writeMessage Cfg.asIs with | .panic => true | .ok _ => false) = true ∧
     (match p.writeMessage Cfg.fixed with | .panic => false | .ok _ => true) = true := by decide
+
+/-! ### best-effort reader: a sample whose fragments all arrive is handed over, whatever happened to earlier samples -/
+
+/-- state of the argument: sample `c` already delivered, or still collectable (expected ≤ c.sn, good buffer, incomplete) -/
+def BeWaiting (c : Change) (f : Nat) (r : Reader) (seen : List Frag) : Prop :=
+  c ∈ r.cache ∨
+  (∃ p, r.proxy = some p ∧ p.availMax < c.sn ∧ BufOK c f p.fragBuf ∧
+    (∀ fr, fr ∈ seen → fr.sn = c.sn → fr ∈ p.fragBuf) ∧ (∃ k, k < fragCount c f ∧ asDataFrag c f k ∉ p.fragBuf))
+
+theorem bufOK_push_other (c : Change) (f : Nat) (buf : List Frag) (fr : Frag) (h : BufOK c f buf) (hne : fr.sn ≠ c.sn) :
+    BufOK c f (pushFrag buf fr) :=
+  ⟨pushFrag_nodup buf fr h.nodup, fun x hx hs => by
+    rcases (mem_pushFrag buf fr x).mp hx with hx | rfl
+    · exact h.genuine x hx hs
+    · exact absurd hs hne⟩
+
+theorem bufOK_push_genuine (c : Change) (f : Nat) (buf : List Frag) (fr : Frag) (h : BufOK c f buf) (hg : Genuine c f fr) :
+    BufOK c f (pushFrag buf fr) :=
+  ⟨pushFrag_nodup buf fr h.nodup, fun x hx hs => by
+    rcases (mem_pushFrag buf fr x).mp hx with hx | rfl
+    · exact h.genuine x hx hs
+    · exact hg⟩
+
+theorem bufOK_filter (c : Change) (f : Nat) (buf : List Frag) (q : Frag → Bool) (h : BufOK c f buf) : BufOK c f (buf.filter q) :=
+  ⟨h.nodup.sublist List.filter_sublist, fun x hx hs => h.genuine x (List.mem_filter.mp hx).1 hs⟩
+
+/-- the best-effort branch of `on_data_submessage` with a number at or above the expected one appends the sample -/
+theorem onData_be_accept (r : Reader) (p : WProxy) (hp : r.proxy = some p) (hbe : r.reliable = false) (sn : Nat) (d : Payload)
+    (hge : sn ≥ p.availMax + 1) :
+    (⟨sn, d⟩ : Change) ∈ (r.onData sn d).cache ∧
+    ∃ p', (r.onData sn d).proxy = some p' ∧ p'.availMax ≤ sn ∧ p'.fragBuf = p.fragBuf.filter (snAbove sn) := by
+  unfold Reader.onData
+  rw [hp]
+  simp only [hbe, Bool.false_eq_true, if_false, hge, if_true]
+  refine ⟨List.mem_append_right _ (List.mem_singleton.mpr rfl), ?_⟩
+  have hhr : p.highestRecv ≤ p.availMax := by unfold WProxy.availMax; exact Nat.le_max_right _ _
+  have hfa : p.firstAvail - 1 ≤ p.availMax := by unfold WProxy.availMax; exact Nat.le_max_left _ _
+  split
+  · refine ⟨_, rfl, ?_, rfl⟩
+    unfold WProxy.availMax WProxy.received
+    simp only
+    split <;> omega
+  · refine ⟨_, rfl, ?_, rfl⟩
+    unfold WProxy.availMax WProxy.received
+    simp only
+    split <;> omega
+
+theorem onFrag_cache_mono (r : Reader) (fr : Frag) (c : Change) (hc : c ∈ r.cache) : c ∈ (r.onFrag fr).cache :=
+  onFrag_cache r fr c hc
+
+/-- one fragment: of the sample itself (genuine) or of an earlier sequence number (anything) -/
+theorem beWaiting_step (c : Change) (f : Nat) (hf : 1 ≤ f) (hf16 : f < 65536) (hlen : c.payload.length < 4294967296)
+    (r : Reader) (hbe : r.reliable = false) (seen : List Frag) (fr : Frag)
+    (hfr : (fr.sn = c.sn ∧ Genuine c f fr) ∨ fr.sn < c.sn) (h : BeWaiting c f r seen) :
+    BeWaiting c f (r.onFrag fr) (seen ++ [fr]) ∧ (r.onFrag fr).reliable = false := by
+  have hrel : (r.onFrag fr).reliable = false := by rw [onFrag_reliable]; exact hbe
+  refine ⟨?_, hrel⟩
+  obtain ⟨rel, px, cache⟩ := r
+  simp only at hbe
+  subst hbe
+  rcases h with hin | ⟨p, hp, hav, hok, hseen, k0, hk0, hmiss⟩
+  · exact Or.inl (onFrag_cache_mono _ fr c hin)
+  · simp only at hp
+    subst hp
+    unfold Reader.onFrag
+    simp only [Bool.false_eq_true, if_false]
+    rcases hfr with ⟨hsn, hg⟩ | hlt
+    · -- a fragment of the sample: accepted (c.sn ≥ expected)
+      have hacc : fr.sn ≥ p.availMax + 1 := by omega
+      rw [if_pos hacc]
+      simp only
+      have hok1 := bufOK_push_genuine c f p.fragBuf fr hok hg
+      by_cases hall : ∀ k, k < fragCount c f → asDataFrag c f k ∈ pushFrag p.fragBuf fr
+      · have hre := reassemble_complete c f hf hf16 hlen _ hok1 (by omega) hall
+        rw [hsn]
+        simp only [reconstruct, hre]
+        left
+        have := (onData_be_accept (({ reliable := false, proxy := some { p with fragBuf := (pushFrag p.fragBuf fr).filter (notSn c.sn) }, cache := cache } : Reader))
+          _ rfl rfl c.sn c.payload (by show c.sn ≥ p.availMax + 1; omega)).1
+        exact this
+      · have ⟨k, hk⟩ := Classical.not_forall.mp hall
+        have ⟨hk1, hk2⟩ := Classical.not_imp.mp hk
+        have hre := reassemble_incomplete c f hf hf16 hlen _ hok1 k hk1 hk2
+        rw [hsn]
+        simp only [reconstruct, hre]
+        right
+        refine ⟨_, rfl, hav, hok1, ?_, k, hk1, hk2⟩
+        intro x hx hxs
+        rcases List.mem_append.mp hx with hx | hx
+        · exact (mem_pushFrag _ _ _).mpr (Or.inl (hseen x hx hxs))
+        · simp only [List.mem_singleton] at hx; exact (mem_pushFrag _ _ _).mpr (Or.inr hx)
+    · -- a fragment of an earlier sequence number: whatever happens, the sample stays collectable
+      have hne : fr.sn ≠ c.sn := by omega
+      generalize hp1 : (if fr.sn ≥ p.availMax + 1 then ({ p with fragBuf := pushFrag p.fragBuf fr } : WProxy) else p) = p1
+      have hav1 : p1.availMax = p.availMax := by rw [← hp1]; split <;> rfl
+      have hok1 : BufOK c f p1.fragBuf := by
+        rw [← hp1]; split
+        · exact bufOK_push_other c f p.fragBuf fr hok hne
+        · exact hok
+      have hkeep : ∀ x, x ∈ p.fragBuf → x ∈ p1.fragBuf := by
+        rw [← hp1]; intro x hx; split
+        · exact (mem_pushFrag _ _ _).mpr (Or.inl hx)
+        · exact hx
+      have hmiss1 : asDataFrag c f k0 ∉ p1.fragBuf := by
+        rw [← hp1]; split
+        · intro hm
+          rcases (mem_pushFrag _ _ _).mp hm with hm | hm
+          · exact hmiss hm
+          · have : (asDataFrag c f k0).sn = fr.sn := by rw [hm]
+            exact hne this.symm
+        · exact hmiss
+      have hseen1 : ∀ x, x ∈ seen ++ [fr] → x.sn = c.sn → x ∈ p1.fragBuf := by
+        intro x hx hxs
+        rcases List.mem_append.mp hx with hx | hx
+        · exact hkeep x (hseen x hx hxs)
+        · simp only [List.mem_singleton] at hx; subst hx; exact absurd hxs hne
+      cases hre : reassemble p1.fragBuf fr.sn with
+      | none =>
+        simp only [reconstruct, hre]
+        right
+        exact ⟨p1, rfl, by rw [hav1]; exact hav, hok1, hseen1, k0, hk0, hmiss1⟩
+      | some d =>
+        simp only [reconstruct, hre]
+        right
+        -- on_data_submessage for the earlier number: accepted or not, c.sn stays above available_changes_max
+        generalize hr2 : ({ reliable := false, proxy := some { p1 with fragBuf := p1.fragBuf.filter (notSn fr.sn) }, cache := cache } : Reader) = r2
+        have hp2 : r2.proxy = some { p1 with fragBuf := p1.fragBuf.filter (notSn fr.sn) } := by rw [← hr2]
+        have hbe2 : r2.reliable = false := by rw [← hr2]
+        have hin2 : ∀ x, x ∈ p1.fragBuf → x.sn = c.sn → x ∈ p1.fragBuf.filter (notSn fr.sn) := by
+          intro x hx hxs
+          exact List.mem_filter.mpr ⟨hx, by simp [notSn, hxs]; omega⟩
+        by_cases hge : fr.sn ≥ p1.availMax + 1
+        · obtain ⟨_, p3, hp3, hav3, hbuf3⟩ := onData_be_accept r2 _ hp2 hbe2 fr.sn d (by show fr.sn ≥ p1.availMax + 1; exact hge)
+          refine ⟨p3, hp3, by omega, ?_, ?_, k0, hk0, ?_⟩
+          · rw [hbuf3]; exact bufOK_filter c f _ _ (bufOK_filter c f _ _ hok1)
+          · intro x hx hxs
+            rw [hbuf3]
+            exact List.mem_filter.mpr ⟨hin2 x (hseen1 x hx hxs) hxs, by simp [snAbove, hxs]; omega⟩
+          · rw [hbuf3]
+            intro hm
+            exact hmiss1 (List.mem_filter.mp (List.mem_filter.mp hm).1).1
+        · have hsame : r2.onData fr.sn d = r2 := by
+            unfold Reader.onData
+            rw [hp2]
+            simp only [hbe2, Bool.false_eq_true, if_false]
+            rw [if_neg (by show ¬ fr.sn ≥ p1.availMax + 1; exact hge)]
+          rw [hsame]
+          refine ⟨_, hp2, by show p1.availMax < c.sn; rw [hav1]; exact hav, bufOK_filter c f _ _ hok1, ?_, k0, hk0, ?_⟩
+          · intro x hx hxs; exact hin2 x (hseen1 x hx hxs) hxs
+          · intro hm; exact hmiss1 (List.mem_filter.mp hm).1
+
+/-- **C05_best_effort_complete_sample_delivered**: a best-effort reader whose expected sequence number is at or below
+    `c.sn` (it has not moved past the sample), with a good buffer for `c` that does not hold the complete sample yet (true
+    in every reachable state: a complete sample is reconstructed at once, `Incomplete` of Proofs/RtpsNoPanic.lean), is
+    handed ANY stream of DATA_FRAG submessages
+    in which every fragment of `c` occurs at least once — in any order, with duplicates, interleaved with arbitrary
+    fragments of EARLIER sequence numbers (complete or not, e.g. the remains of a sample that lost a fragment): at the
+    end the sample is in the delivered list, byte-identical. (Fragments of LATER numbers are excluded: a later sample
+    that completes first legitimately moves the reader past `c`.) The seeded change `==` for best-effort readers
+    breaks exactly this: with an earlier incomplete sample the expected number stays below `c.sn`. -/
+theorem C05_best_effort_complete_sample_delivered (c : Change) (f : Nat) (hf : 1 ≤ f) (hf16 : f < 65536)
+    (hlen : c.payload.length < 4294967296) (r : Reader) (p : WProxy) (hp : r.proxy = some p)
+    (hbe : r.reliable = false) (hexp : p.availMax + 1 ≤ c.sn) (hbuf : BufOK c f p.fragBuf)
+    (hinc : ∃ k, k < fragCount c f ∧ asDataFrag c f k ∉ p.fragBuf) (stream : List Frag)
+    (hstream : ∀ fr, fr ∈ stream → (fr.sn = c.sn ∧ Genuine c f fr) ∨ fr.sn < c.sn)
+    (hall : ∀ k, k < fragCount c f → asDataFrag c f k ∈ stream) :
+    c ∈ (stream.foldl Reader.onFrag r).cache := by
+  -- generalised over the fragments already seen
+  have gen : ∀ (stream : List Frag) (r : Reader) (seen : List Frag), r.reliable = false → BeWaiting c f r seen →
+      (∀ fr, fr ∈ stream → (fr.sn = c.sn ∧ Genuine c f fr) ∨ fr.sn < c.sn) →
+      BeWaiting c f (stream.foldl Reader.onFrag r) (seen ++ stream) := by
+    intro stream
+    induction stream with
+    | nil => intro r seen _ h _; simpa using h
+    | cons x xs ih =>
+      intro r seen hb h hs
+      obtain ⟨h1, hb1⟩ := beWaiting_step c f hf hf16 hlen r hb seen x (hs x (List.mem_cons_self ..)) h
+      have := ih (r.onFrag x) (seen ++ [x]) hb1 h1 (fun y hy => hs y (List.mem_cons_of_mem _ hy))
+      simpa [List.append_assoc] using this
+  obtain ⟨k, hk1, hk2⟩ := hinc
+  have h := gen stream r [] hbe (Or.inr ⟨p, hp, by omega, hbuf, (by intro x hx; cases hx), k, hk1, hk2⟩) hstream
+  rcases h with hin | ⟨p', _, _, hok', hseen', k', hk', hmiss'⟩
+  · exact hin
+  · exact absurd (hseen' _ (by simpa using hall k' hk') (asDataFrag_sn c f k')) hmiss'
+
+/-- the seeded variant of `on_data_frag_submessage` (seed C05_d): the best-effort arm lost its `>=` -/
+def Reader.onFragSeeded (r : Reader) (fr : Frag) : Reader :=
+  match r.proxy with
+  | none => r
+  | some p =>
+    let p1 := if fr.sn = p.availMax + 1 then { p with fragBuf := pushFrag p.fragBuf fr } else p
+    match reconstruct p1.fragBuf fr.sn with
+    | (some d, buf) => Reader.onData { r with proxy := some { p1 with fragBuf := buf } } fr.sn d
+    | (none, _) => { r with proxy := some p1 }
+
+/-- non-vacuity of the theorem above and witness against the seeded variant: a best-effort reader holds fragments 1 and 3
+    of sample 1 (fragment 2 was lost); all three fragments of sample 2 arrive (last one first, one duplicate, a late copy
+    of fragment 1 of sample 1 in between): the real code delivers sample 2 byte-identically, the seeded one nothing. -/
+theorem C05_best_effort_seeded_counterexample :
+    let c1 : Change := ⟨1, List.range 20⟩
+    let c2 : Change := ⟨2, (List.range 17).map (· + 100)⟩
+    let r : Reader := { reliable := false, proxy := some { WProxy.new with fragBuf := [asDataFrag c1 8 0, asDataFrag c1 8 2] }, cache := [] }
+    let stream := [asDataFrag c2 8 2, asDataFrag c1 8 0, asDataFrag c2 8 0, asDataFrag c2 8 0, asDataFrag c2 8 1]
+    (stream.foldl Reader.onFrag r).cache = [c2] ∧ (stream.foldl Reader.onFragSeeded r).cache = [] := by decide
 
 end DustVerif.Rtps
